@@ -174,7 +174,7 @@ def _tlc_trace_once(job, module, cfg_text, trace_path, timeout):
     raise ToolError("TLC failed on %s: %s" % (trace_path, em.group(0) if em else out[-1500:]))
 
 
-def validate_trace_file(job, module, cfg_name, trace_path, timeout=900, max_rejects=3, reset_ev="reset"):
+def validate_trace_file(job, module, cfg_name, trace_path, timeout=2400, max_rejects=3, reset_ev="reset"):
     """Validate one ndjson trace file (many runs separated by `reset` records) against a trace spec.
     A rejected run is cut out (and returned) so that the rest of the file is still checked."""
     cfg_text = open(os.path.join(SPEC, cfg_name)).read()
@@ -214,7 +214,7 @@ def validate_trace_file(job, module, cfg_name, trace_path, timeout=900, max_reje
     return {"states": states, "rejected": rejected}
 
 
-def validate_traces(jobprefix, module, cfg_name, trace_paths, parallel=12, timeout=900):
+def validate_traces(jobprefix, module, cfg_name, trace_paths, parallel=12, timeout=2400):
     res = {"states": 0, "rejected": []}
     with ThreadPoolExecutor(max_workers=parallel) as ex:
         futs = [ex.submit(validate_trace_file, "%s_%d" % (jobprefix, i), module, cfg_name, p, timeout)
